@@ -415,6 +415,13 @@ def op_third_path_config(s):
     return s
 
 
+def op_default_not_first(s):
+    """The default path configuration is not the first one listed."""
+    s = copy.deepcopy(s)
+    s["default_path_config"] = list(s["path_configs"])[-1]
+    return s
+
+
 def op_explicit_levels(s):
     """Intermediate types that extrapolation would generate are also written out by hand (second chain level of each basetype)."""
     s = copy.deepcopy(s)
@@ -426,7 +433,7 @@ OPERATORS = [("rename-keys", op_rename_keys), ("rename-basetypes", op_rename_bas
              ("rename-leaf-key", op_rename_leaf_key), ("insert-level", op_insert_level), ("remove-level", op_remove_level),
              ("separator", op_separator), ("folders", op_folders), ("vocabularies", op_vocabularies), ("digit-patterns", op_digits),
              ("third-basetype", op_third_basetype), ("third-path-config", op_third_path_config),
-             ("explicit-levels", op_explicit_levels)]
+             ("explicit-levels", op_explicit_levels), ("default-not-first", op_default_not_first)]
 
 
 def family(tier):
